@@ -2,6 +2,7 @@ package clock
 
 import (
 	"github.com/my-cloud/ruthenium/validatornode/application"
+	"sync/atomic"
 	"time"
 )
 
@@ -14,8 +15,8 @@ type Engine struct {
 	ticker             *time.Ticker
 	occurrences        int64
 	skippedOccurrences int
-	started            bool
-	requested          bool
+	started            atomic.Bool
+	requested          atomic.Bool
 }
 
 func NewEngine(function func(timestamp int64), watch application.TimeProvider, timer time.Duration, occurrences int64, skippedOccurrences int) *Engine {
@@ -26,22 +27,22 @@ func NewEngine(function func(timestamp int64), watch application.TimeProvider, t
 		subTimer = timer
 	}
 	ticker := time.NewTicker(timer)
-	return &Engine{function, watch, timer, subTimer, ticker, occurrences, skippedOccurrences, false, false}
+	return &Engine{function: function, watch: watch, timer: timer, subTimer: subTimer, ticker: ticker, occurrences: occurrences, skippedOccurrences: skippedOccurrences}
 }
 
 func (engine *Engine) Pulse() {
-	if engine.started || engine.requested {
+	if engine.started.Load() || engine.requested.Load() {
 		return
 	}
 	now := engine.watch.Now()
 	startTime := now.Truncate(engine.timer).Add(engine.timer)
 	deadline := startTime.Sub(now)
 	engine.ticker.Reset(deadline)
-	engine.requested = true
+	engine.requested.Store(true)
 	<-engine.ticker.C
 	engine.function(startTime.UnixNano())
-	engine.requested = false
-	if engine.started {
+	engine.requested.Store(false)
+	if engine.started.Load() {
 		newParsedStartDate := startTime.Add(engine.timer)
 		newDeadline := newParsedStartDate.Sub(startTime)
 		engine.ticker.Reset(newDeadline)
@@ -51,10 +52,10 @@ func (engine *Engine) Pulse() {
 }
 
 func (engine *Engine) Start() {
-	if engine.started {
+	if engine.started.Load() {
 		return
 	}
-	engine.started = true
+	engine.started.Store(true)
 	initialTime := engine.watch.Now()
 	startTime := initialTime.Truncate(engine.timer).Add(engine.timer)
 	deadline := startTime.Sub(initialTime)
@@ -65,7 +66,7 @@ func (engine *Engine) Start() {
 	for {
 		for i := 0; i < occurrences; i++ {
 			if i >= engine.skippedOccurrences {
-				if !engine.started {
+				if !engine.started.Load() {
 					engine.ticker.Stop()
 					return
 				}
@@ -78,6 +79,6 @@ func (engine *Engine) Start() {
 }
 
 func (engine *Engine) Stop() {
-	engine.started = false
+	engine.started.Store(false)
 	engine.ticker.Reset(time.Nanosecond)
 }
